@@ -7,6 +7,7 @@ import (
 	"runtime"
 	"sort"
 	"strings"
+	"unsafe"
 
 	"github.com/peterstace/simplefeatures/geom"
 	"github.com/peterstace/simplefeatures/rtree"
@@ -298,6 +299,19 @@ func (p *pool) count(k string) int {
 	return n
 }
 
+// sharedBuf returns the sel-th shared document of the given format, or nil
+// (sel 0 and selections that land on another format mean "private copy").
+func (p *pool) sharedBuf(format string, sel int) []byte {
+	if sel <= 0 || len(p.bufs) == 0 {
+		return nil
+	}
+	b := p.bufs[(sel-1)%len(p.bufs)]
+	if b.format != format || len(b.b) == 0 {
+		return nil
+	}
+	return b.b
+}
+
 func (p *pool) nth(k string, i int) int {
 	for gi, g := range p.geoms {
 		if g.Type().String() == k {
@@ -392,9 +406,9 @@ func drawArg(s *vs.Stream, p *pool, kind string) []int {
 	case "twkbopts":
 		return []int{s.Intn(32, "a/twkb"), s.Intn(8, "a/pz"), s.Intn(8, "a/pm")}
 	case "wkb", "wkt", "geojson":
-		return []int{s.Intn(len(p.geoms), "a/g")}
+		return []int{s.Intn(len(p.geoms), "a/g"), s.Intn(2*len(p.bufs)+1, "a/shared")}
 	case "twkb":
-		return []int{s.Intn(len(p.geoms), "a/g"), s.Intn(8, "a/prec"), s.Intn(8, "a/twkb")}
+		return []int{s.Intn(len(p.geoms), "a/g"), s.Intn(8, "a/prec"), s.Intn(8, "a/twkb"), s.Intn(2*len(p.bufs)+1, "a/shared")}
 	case "matrix", "pattern":
 		return []int{s.Intn(6, "a/mat")}
 	case "pts", "lss", "rings", "polys":
@@ -607,14 +621,27 @@ func (env *execEnv) mat(kind string, a []int, e *opEntry, pos int) reflect.Value
 			o = append(o, geom.TWKBIDList(ids))
 		}
 		return reflect.ValueOf(o)
-	case "wkb":
-		return scr(p.geoms[a[0]].AsBinary())
-	case "wkt":
-		return reflect.ValueOf(p.geoms[a[0]].AsText())
-	case "geojson":
+	case "wkb", "wkt", "geojson":
+		// a shared document of that format (decoded concurrently by several
+		// tasks, never scribbled), or a private fresh encoding (scribbled)
+		if sh := p.sharedBuf(kind, a[1]); sh != nil {
+			if kind == "wkt" {
+				return reflect.ValueOf(unsafe.String(&sh[0], len(sh)))
+			}
+			return reflect.ValueOf(sh)
+		}
+		switch kind {
+		case "wkb":
+			return scr(p.geoms[a[0]].AsBinary())
+		case "wkt":
+			return reflect.ValueOf(p.geoms[a[0]].AsText())
+		}
 		b, _ := p.geoms[a[0]].MarshalJSON()
 		return scr(b)
 	case "twkb":
+		if sh := p.sharedBuf(kind, a[3]); sh != nil {
+			return reflect.ValueOf(sh)
+		}
 		var o []geom.TWKBWriterOption
 		if a[2]&1 != 0 {
 			o = append(o, geom.TWKBSizeHeader())
@@ -759,6 +786,19 @@ type faultAddr interface{ Addr() uintptr }
 
 // execOp runs one scripted call and digests what it returned.
 func execOp(op *opSpec, p *pool, scribbleNow bool) (res opResult) {
+	defer func() {
+		// Digesting or re-reading a value can itself panic when an operand or
+		// a result has been corrupted (e.g. a zeroed member behind an aliased
+		// slice): that is a result like any other, not a harness crash.
+		if r := recover(); r != nil {
+			if _, ok := r.(vs.StepBudgetExceeded); ok {
+				res.Budget = true
+				res.Digest = "BUDGET"
+				return
+			}
+			res.Digest = "NOT-RETAINED(reading back a returned value panicked after the caller reused its own buffers: " + fmt.Sprint(r) + ")"
+		}
+	}()
 	e := catalogue[op.Entry]
 	env := &execEnv{p: p}
 	var outs []reflect.Value
